@@ -244,6 +244,14 @@ func (engine *Engine) DialAsyncTimeout(network, addr string, timeout time.Durati
 		}
 	}
 
+	if inprogress && timeout > 0 {
+		// Arm the dial timer before the poller can see the connection: a
+		// connect that completes at once must find the timer it clears.
+		c.wTimer = engine.AfterFunc(timeout, func() {
+			_ = c.closeWithError(ErrDialTimeout)
+		})
+	}
+
 	engine.wgConn.Add(1)
 	_, err = engine.addDialer(c)
 	if err != nil {
@@ -255,8 +263,6 @@ func (engine *Engine) DialAsyncTimeout(network, addr string, timeout time.Durati
 		engine.Async(func() {
 			h(c, nil)
 		})
-	} else if timeout > 0 {
-		_ = c.setDeadline(&c.wTimer, ErrDialTimeout, time.Now().Add(timeout))
 	}
 
 	return nil
